@@ -35,7 +35,7 @@ ILIS = ['i1', 'i2', 'i3', 'i4', 'i5', 'i6', '', '', 'in']
 TYPES = ('hypernym', 'hypernym', 'instance_hypernym', 'hyponym', 'similar', 'zz_rel')
 
 
-def _lex(draw, lid, n, nrel):
+def _lex(draw, lid, n, nrel, lex_id=None, version='1'):
     ss = []
     for i in range(n):
         ss.append({'id': f'{lid}-s{i}', 'ili': draw(st.sampled_from(ILIS)), 'partOfSpeech': 'n',
@@ -49,30 +49,32 @@ def _lex(draw, lid, n, nrel):
                          'relType': draw(st.sampled_from(TYPES)), 'meta': m})
         if rels:
             s['relations'] = rels
-    return {'id': lid, 'version': '1', 'label': lid, 'language': 'en' if lid == 'L' else 'es',
+    return {'id': lex_id or lid, 'version': version, 'label': lid,
+            'language': 'en' if lid == 'L' else 'es',
             'email': 'e', 'license': 'l', 'meta': None, 'synsets': ss}
 
 
 @st.composite
 def _cases(draw):
     L = _lex(draw, 'L', draw(st.integers(1, 4)), draw(st.integers(0, 1)))
-    E1 = _lex(draw, 'E1', draw(st.integers(2, 4)), 3)
-    E2 = _lex(draw, 'E2', draw(st.integers(1, 3)), 2)
+    # the two expand lexicons are two versions of one id: dependencies are id:version pairs
+    E1 = _lex(draw, 'E1', draw(st.integers(2, 4)), 3, lex_id='E', version='1')
+    E2 = _lex(draw, 'E2', draw(st.integers(1, 3)), 2, lex_id='E', version='2')
     reqs = []
     if draw(st.booleans()):
-        reqs.append({'id': 'E1', 'version': '1'})
+        reqs.append({'id': 'E', 'version': '1'})
     if draw(st.booleans()):
-        reqs.append({'id': 'E2', 'version': '1'})
+        reqs.append({'id': 'E', 'version': '2'})
     if draw(st.integers(0, 3)) == 0:
         reqs.append({'id': 'missing', 'version': '1'})
     if reqs:
         L['requires'] = reqs
-    installed = ['L:1', 'E1:1'] + (['E2:1'] if draw(st.booleans()) else [])
+    installed = ['L:1', 'E:1'] + (['E:2'] if draw(st.booleans()) else [])
     order = draw(st.permutations(installed))
-    sel = draw(st.sampled_from(['L:1', 'L:1', 'L:1', None, 'L:1 E1:1']))
-    opts = [None, None, '', 'E1:1', '*'] + (['E1:1 E2:1'] if 'E2:1' in installed else [])
+    sel = draw(st.sampled_from(['L:1', 'L:1', 'L:1', None, 'L:1 E:1']))
+    opts = [None, None, '', 'E:1', '*'] + (['E:1 E:2'] if 'E:2' in installed else [])
     expand = draw(st.sampled_from(opts))
-    return {'lexicons': {'L:1': L, 'E1:1': E1, 'E2:1': E2}, 'order': list(order),
+    return {'lexicons': {'L:1': L, 'E:1': E1, 'E:2': E2}, 'order': list(order),
             'selection': sel, 'expand': expand}
 
 
